@@ -154,7 +154,7 @@ theorem EnginePair.permC {nnc n cs cs' gs fC fG sC sG} (h : EnginePair nnc n cs 
     intro x hx l hl
     obtain ⟨s, hs, rfl⟩ := List.mem_map.mp hl
     exact hx _ (List.mem_map.mpr ⟨s, hp.mem_iff.mpr hs, rfl⟩)
-  refine ⟨?_, fun x hl hx => h.complete x hl (hall x hx), ?_, h.minG, fun h' => (by cases h'), hsG'⟩
+  refine ⟨?_, fun x hl hx => h.complete x hl (hall x hx), ?_, h.minG, h.minL, fun h' => (by cases h'), hsG'⟩
   · intro d hd s hs
     obtain ⟨r, hr, rfl⟩ := List.mem_map.mp hs
     exact h.sound d hd _ (List.mem_map.mpr ⟨r, hp.mem_iff.mp hr, rfl⟩)
